@@ -15,6 +15,7 @@ NOTES = {
  "C18-read_path-skips-two-chars": "first exit 2 (the extraction rule counted the USES of the reference parameter, which is not a shape property); the use-count rules now accept any count >= 1",
  "C18-move_path-tests-write-cursor": "first exit 2 for the same reason as the read_path seed",
  "C07-arg_off-brackets-consume-index": "first MISSED (exit 0): C07's families had no array brackets in the middle of a tag string within their bounds; caught since bracketed tag strings (`i[ii]`, `s[ib]`, `[b]i`, `[i]h[T]s`) were added to `C07.accept_structured.*` (C01's shape family already caught it)",
+ "C08-bundle-partial-clear-off-by-one": "first MISSED (exit 0): the decomposition obligations measured a copy of the expected bytes, never the PRODUCED buffer with its capacity as bound and stale content behind the bundle; caught since `C08.bundle_in_place.*` was added",
  "C05-match_number-strtoul-base0": "first exit 2 (the variant removes the loops the loop contracts attach to; injection failure aborted the whole check); injection failure is now local to the proof obligations and the bounded `C05.index.*` family decides it",
 }
 print("| seeded change (directory under `seeded/`) | what it needs to manifest | final check result | caught by | note |")
